@@ -545,7 +545,13 @@ def _quadrature_matrix(repo, res, ru, cq):
     ridges = {"triangle": ["vertex"], "quadrilateral": ["vertex"], "tetrahedron": ["interval"], "hexahedron": ["interval"], "prism": ["interval"]}
     itypes = ["cell", "exterior_facet", "interior_facet", "vertex", "ridge", "expression"]
 
+    from ..npmodel import NDArr, install_arrays
+
     def plain(v):
+        if isinstance(v, NDArr):
+            return plain(v.tolist())
+        if isinstance(v, dict):
+            return {k_: plain(x) for k_, x in v.items()}
         if isinstance(v, tuple):
             return tuple(plain(x) for x in v)
         if isinstance(v, list):
@@ -565,25 +571,23 @@ def _quadrature_matrix(repo, res, ru, cq):
                 def make_quadrature(ct, degree, rule=None, polyset_type=None, _c=calls):
                     _c.append((ct, degree, rule, polyset_type))
                     pts, wts = sample[ct]
-                    return ([list(p_) for p_ in pts], list(wts))
+                    return (NDArr([list(p_) for p_ in pts], (len(pts), len(pts[0]))), NDArr(list(wts), (len(wts),)))  # basix returns arrays
 
-                it = Interp(repo, load_classes(repo), primary="ffcx.ir.representationutils")
+                it = install_arrays(Interp(repo, load_classes(repo), primary="ffcx.ir.representationutils"))
                 it.overrides["basix.make_quadrature"] = _PyCall(make_quadrature)
                 it.overrides["basix.PolysetType.standard"] = "PolysetType.standard"
                 it.overrides["basix.polyset_superset"] = _PyCall(lambda ct, a, b: a if a == b or b == "PolysetType.standard" else b)
                 it.overrides["basix.quadrature.string_to_type"] = _PyCall(lambda r: f"QuadratureType.{r}")
                 it.overrides["_CellType"] = {n_: n_ for n_ in sample}
-                it.overrides["np.ones"] = _PyCall(lambda shape, **k: [[]] if shape == (1, 0) else [Fr(1)] * (shape if isinstance(shape, int) else shape[0]))
+                it.overrides["np.ones"] = _PyCall(lambda shape, **k: NDArr([[]], (1, 0)) if tuple(shape if not isinstance(shape, int) else (shape,)) == (1, 0)
+                                                  else NDArr([Fr(1)] * (shape if isinstance(shape, int) else shape[0])))
                 it.overrides["np.float64"] = "float64"
-                it.overrides["np.array"] = _PyCall(lambda x, **k: plain(x))
-                it.overrides["np.asarray"] = _PyCall(lambda x, **k: plain(x))
 
                 def prod(x):
                     out = Fr(1)
-                    for v in x:
+                    for v in (x.flat() if isinstance(x, NDArr) else x):
                         out *= v
                     return out
-                it.overrides["np.prod"] = _PyCall(prod)
                 it.overrides["itertools.product"] = _PyCall(lambda *its: [tuple(x) for x in itertools.product(*[list(i) for i in its])])
                 it.overrides["ufl.measure.facet_integral_types"] = ("exterior_facet", "interior_facet")
                 it.overrides["ufl.measure.ridge_integral_types"] = ("ridge",)
@@ -618,9 +622,14 @@ def _quadrature_matrix(repo, res, ru, cq):
                     if got_tf != want_tf:
                         res.fail(key, f"the 1D factors are not one interval rule per direction ({ndir} for a {cname}) of the requested degree: "
                                  f"{ {k_: len(v_) for k_, v_ in got_tf.items()} } factor(s), built from {[c_[0] for c_ in calls]}", ru.line(cq.node))
-                    elif {k_: [tuple(q_) for q_ in v_] for k_, v_ in dict(pts).items()} != want_p or dict(wts) != want_w:
-                        res.fail(key, "tensor-product points/weights are not the Cartesian product of the 1D rule (the generated tensor then "
-                                 "differs from the one the plain rule integrates)", ru.line(cq.node))
+                    else:
+                        # the rule as a set of (point, weight) pairs; in which order the pairs are listed matters only to a consumer that addresses the
+                        # flat arrays with the flattened loop index (rule SUMFACT-ORDER)
+                        got_pairs = {k_: sorted(zip([tuple(q_) for q_ in v_], dict(wts).get(k_, []))) for k_, v_ in dict(pts).items()}
+                        want_pairs = {k_: sorted(zip(want_p[k_], want_w[k_])) for k_ in want_p}
+                        if got_pairs != want_pairs or {k_: len(v_) for k_, v_ in dict(wts).items()} != {k_: len(v_) for k_, v_ in want_w.items()}:
+                            res.fail(key, "tensor-product points/weights are not the Cartesian product of the 1D rule, each point with the product of its factors' "
+                                     "weights (the generated tensor then differs from the one the plain rule integrates)", ru.line(cq.node))
                     continue
                 if dict(tf):
                     res.fail(key, f"tensor-product quadrature is not restricted to cell integrals on quadrilaterals / hexahedra with the option on: "
